@@ -120,6 +120,22 @@ func Consistency(x *Exec, h *Hist, v *PlanView, pi int) [][2]string {
 		o := v.Objs[scope+"/"+g]
 		return o != nil && o.Status == workflow.Failed
 	}
+	// the same agreement one level down: a block that is Completed although not bypassed has no failed check of its own
+	for bi := range x.Sc.Plans[pi].Blocks {
+		bp := fmt.Sprintf("%s/B%d", planPath, bi)
+		bo := v.Objs[bp]
+		if bo == nil || bo.Status != workflow.Completed {
+			continue
+		}
+		if by := v.Objs[bp+"/By"]; by != nil && by.Status == workflow.Completed {
+			continue
+		}
+		for _, g := range []string{"Pre", "Cont", "Post", "Def"} {
+			if groupFailedStored(bp, g) {
+				add("completed-block-with-failed-check", "%s is Completed but %s/%s is Failed", bp, bp, g)
+			}
+		}
+	}
 	if ps.Status == workflow.Completed {
 		by := v.Objs[planPath+"/By"]
 		bypassed := by != nil && by.Status == workflow.Completed
